@@ -110,7 +110,7 @@ MkIndex(r, ns, i) == IF i > Len(ns) THEN r
                      ELSE IF ns[i].t = "bin" /\ ns[i].op = ":"
                           THEN MkIndex([t |-> "ix2", a |-> r, i |-> ns[i].l, j |-> ns[i].r], ns, i + 1)
                           ELSE MkIndex([t |-> "ix1", a |-> r, i |-> ns[i]], ns, i + 1)
-\* builders return [ok, nodes]; mkFor can reject
+\* builders return [ok, nodes]; mkFor and mkFunction can reject
 Build(f, ns) ==
   CASE f = "none" -> [ok |-> TRUE, nodes |-> <<>>]
     [] f = "mkList" -> [ok |-> TRUE, nodes |-> << [t |-> "list", e |-> ns] >>]
@@ -125,7 +125,8 @@ Build(f, ns) ==
                       ELSE [ok |-> TRUE, nodes |-> << [t |-> "for", vars |-> ns[2].e, iters |-> ns[4].e, body |-> ns[5]] >>]
     [] f = "mkReturn" -> [ok |-> TRUE, nodes |-> << [t |-> "ret", e |-> ns[2]] >>]
     [] f = "mkYield" -> [ok |-> TRUE, nodes |-> << [t |-> "yield", e |-> ns[2]] >>]
-    [] f = "mkFunction" -> [ok |-> TRUE, nodes |-> << [t |-> "fn", params |-> [i \in 1..Len(ns[1].e) |-> ns[1].e[i].n], body |-> ns[3]] >>]
+    [] f = "mkFunction" -> IF \E i, j \in 1..Len(ns[1].e) : i < j /\ ns[1].e[i].n = ns[1].e[j].n THEN [ok |-> FALSE, nodes |-> <<>>]     \* every parameter needs a name of its own
+                           ELSE [ok |-> TRUE, nodes |-> << [t |-> "fn", params |-> [i \in 1..Len(ns[1].e) |-> ns[1].e[i].n], body |-> ns[3]] >>]
     [] f = "mkFCall" -> [ok |-> TRUE, nodes |-> << [t |-> "call", name |-> ns[1], args |-> ns[2].e] >>]
     [] f = "mkBlock" -> [ok |-> TRUE, nodes |-> IF Len(ns) <= 1 THEN ns ELSE << [t |-> "block", ss |-> ns] >>]
 
